@@ -94,6 +94,8 @@ type world struct {
 	l1hdr   map[uint64]*ethtypes.Header
 	l1tip   uint64
 	l1shape []int
+	l1steps string
+	l1claims [][]int
 	finalized uint64
 
 	pool     []*claimSpec
@@ -129,9 +131,24 @@ func (w *world) buildL1(ctx context.Context) error {
 		main, other int // deposits existing after this block
 	}
 	steps := []step{{1, 0}, {1, 1}, {2, 1}, {2, 2}, {3, 2}}
+	if w.l1steps != "" { // one info leaf per letter: m = a deposit on mainnet, o = a deposit on the other rollup + its verification
+		steps = nil
+		cur := step{}
+		for _, c := range w.l1steps {
+			if c == 'm' {
+				cur.main++
+			} else {
+				cur.other++
+			}
+			steps = append(steps, cur)
+		}
+	}
 	shape := w.l1shape // L1 block of each info leaf (non-decreasing); several leaves may share a block
 	if len(shape) != len(steps) {
-		shape = []int{1, 2, 3, 4, 5}
+		shape = nil
+		for i := range steps {
+			shape = append(shape, i+1)
+		}
 	}
 	nMain, nOther := 0, 0
 	var evs []any
@@ -183,7 +200,7 @@ func (w *world) buildL1(ctx context.Context) error {
 			}
 		}
 	}
-	for w.l1tip < uint64(len(steps)) { // empty L1 blocks up to block 5 (the finalized pointer ranges over 1..5)
+	for w.l1tip < uint64(len(steps)) { // empty L1 blocks up to the number of leaves (the finalized pointer ranges over them)
 		if err := flush(w.l1tip + 1); err != nil {
 			return err
 		}
@@ -215,6 +232,16 @@ func (w *world) buildL1(ctx context.Context) error {
 		cl.TxHash = names.Keccak([]byte(fmt.Sprintf("claimtx-%d-%d", w.seed, c.id)))
 		c.claim = cl
 		w.pool = append(w.pool, c)
+	}
+	if w.l1claims != nil {
+		for _, c := range w.l1claims { // [mainnet, deposit number, leaf index]; the leaf must cover the deposit
+			if len(c) != 3 || c[2] < 0 || c[2] >= len(w.leaves) || c[1] < 1 ||
+				(c[0] == 1 && w.leaves[c[2]].nMain < c[1]) || (c[0] != 1 && w.leaves[c[2]].nOther < c[1]) {
+				return fmt.Errorf("claim %v is not covered by the L1 history %q", c, w.l1steps)
+			}
+			mk(c[0] == 1, c[1], c[2])
+		}
+		return nil
 	}
 	mk(true, 1, 0)
 	mk(false, 1, 2)
